@@ -983,6 +983,14 @@ func flush(cells []cell) string {
 				stripped := strings.TrimLeftFunc(line, unicode.IsSpace)
 				lead := line[:len(line)-len(stripped)]
 				if stripped == "" && strings.HasSuffix(line, "\n") {
+					if line == "\n" {
+						// an empty line has no indentation to analyse and nothing to trim
+						// (hclsyntax's own tests: "<<-EOT\n  Foo\n\n  Bar\n" gives "Foo\n\nBar\n")
+						atLineStart = true
+						off = end
+						continue
+					}
+					// a line of spaces only: counted (and trimmed) or ignored? the specification is silent
 					return "U7-flush-heredoc-blank-line"
 				}
 				if strings.Trim(lead, " ") != "" {
